@@ -106,8 +106,94 @@ Definition png_advanced (data : bytes) (ps : parms) : option bytes :=
       end
   end.
 
+(** ** TIFF predictor 2 (apply_tiff_predictor, unpack_samples, pack_samples).  Samples are u16. *)
+
+(** unpack_samples, 16 bits: row.chunks_exact(2).map(u16::from_be_bytes) *)
+Fixpoint pairs_be (row : bytes) : list N :=
+  match row with
+  | a :: b :: r => (a * 256 + b) :: pairs_be r
+  | _ => []
+  end.
+(** `for k in 1..=per_byte { values.push((byte >> (8 - k * bpc)) & mask) }`, mask = 2^bpc - 1 *)
+Fixpoint byte_samples_from (bpc byte k : N) (n : nat) : list N :=
+  match n with
+  | O => []
+  | S n' => ((byte / 2 ^ (8 - k * bpc)) mod 2 ^ bpc) :: byte_samples_from bpc byte (k + 1) n'
+  end.
+Definition byte_samples (bpc byte : N) : list N := byte_samples_from bpc byte 1 (N.to_nat (8 / bpc)).
+Definition unpack_samples (row : bytes) (bpc count : N) : list N :=
+  if bpc =? 16 then pairs_be row
+  else firstn (N.to_nat count) (flat_map (byte_samples bpc) row).     (* values.truncate(count) *)
+
+(** pack_samples: `for (k, value) in group.iter().enumerate() { byte |= (value as u8) << (8 - (k + 1) * bpc) }` *)
+Fixpoint pack_group (bpc : N) (group : list N) (k byte : N) : N :=
+  match group with
+  | [] => byte
+  | v :: r => pack_group bpc r (k + 1) (N.lor byte (((v mod 256) * 2 ^ (8 - (k + 1) * bpc)) mod 256))
+  end.
+(** slice::chunks(per): groups of [per] elements, the last one possibly shorter *)
+Fixpoint slice_chunks (fuel per : nat) (l : list N) : list (list N) :=
+  match fuel with
+  | O => []
+  | S f => match l with
+           | [] => []
+           | _ => firstn per l :: slice_chunks f per (skipn per l)
+           end
+  end.
+Definition pack_samples (values : list N) (bpc : N) : bytes :=
+  if bpc =? 16 then flat_map (fun v => [v / 256; v mod 256]) values       (* u16::to_be_bytes *)
+  else map (fun g => pack_group bpc g 0 0) (slice_chunks (length values) (N.to_nat (8 / bpc)) values).
+
+(** `for i in colors..values.len() { values[i] = values[i].wrapping_add(values[i - colors]) & mask }`:
+    an in-place left-to-right loop; position i - colors already holds its final value, position i
+    still the stored difference, so it is [row_loop] with [acc] = the finished prefix *)
+Definition tiff_g (bpc colors : N) (i : N) (acc : list N) (v : N) : N :=
+  if i <? colors then v else ((v + nth0 acc (i - colors)) mod 65536) mod 2 ^ bpc.
+Definition tiff_row (bpc colors samples : N) (row : bytes) : bytes :=
+  pack_samples (row_loop (tiff_g bpc colors) (unpack_samples row bpc samples) [] 0) bpc.
+(** `for row in data.chunks_exact(row_bytes)` *)
+Fixpoint tiff_rows (num_rows : nat) (row_bytes : nat) (bpc colors samples : N) (data : bytes) : bytes :=
+  match num_rows with
+  | O => []
+  | S k => tiff_row bpc colors samples (firstn row_bytes data)
+           ++ tiff_rows k row_bytes bpc colors samples (skipn row_bytes data)
+  end.
+
+Definition tiff_bpc_ok (bpc : N) : bool :=
+  (bpc =? 1) || (bpc =? 2) || (bpc =? 4) || (bpc =? 8) || (bpc =? 16).
+
+Definition tiff_predictor (data : bytes) (ps : parms) : option bytes :=
+  let columns := as_usize (zdef (p_columns ps) 1) in
+  let bpc := as_usize (zdef (p_bpc ps) 8) in
+  let colors := as_usize (zdef (p_colors ps) 1) in
+  if negb (tiff_bpc_ok bpc) then None
+  else
+    match checked_mul columns colors with
+    | None => None
+    | Some samples =>
+        match checked_mul samples bpc with
+        | None => None
+        | Some bits =>
+            match checked_add bits 7 with
+            | None => None
+            | Some b7 =>
+                let row_bytes := b7 / 8 in
+                if row_bytes =? 0 then None
+                else if negb ((len data) mod row_bytes =? 0) then None
+                else Some (tiff_rows (N.to_nat (len data / row_bytes)) (N.to_nat row_bytes) bpc colors samples data)
+            end
+        end
+    end.
+
 (** apply_predictor(data, predictor as u32, params) *)
 Definition apply_predictor (data : bytes) (predictor : N) (ps : parms) : option bytes :=
+  if predictor =? 1 then Some data
+  else if predictor =? 2 then tiff_predictor data ps
+  else if (10 <=? predictor) && (predictor <=? 15) then png_advanced data ps
+  else Some data.      (* every other value: returned as-is *)
+
+(** the definition before fix_tiff_predictor2.patch (kept as a record of the pinned behaviour) *)
+Definition apply_predictor_pinned (data : bytes) (predictor : N) (ps : parms) : option bytes :=
   if predictor =? 1 then Some data
   else if (10 <=? predictor) && (predictor <=? 15) then png_advanced data ps
   else Some data.      (* every other value, TIFF predictor 2 included: returned as-is *)
